@@ -458,3 +458,73 @@ theorem hasRelationship_no_target (fuel lf : Nat) (x : NsX) (recs : List RecX) (
     simp only [hc', Bool.not_false, if_true, Bool.false_and]
 
 end Hs.NsA
+
+namespace Hs.NsA
+open Hs Hs.Ns
+
+/-! ### `has_relationship` with a target, for a relationship that is not transitive
+
+`rel? @target` on a record whose own `id` is not the target: the reciprocal branch needs `ref_target == id` and is
+never taken, no Ref is followed; the answer is "some tag holds exactly that Ref and its def declares the relationship
+with a Symbol that fits the term". -/
+
+theorem relInner_direct (recs : List FLoops.Rec) (hr : Bool) (id : Option FLoops.RefId) (g : FLoops.RefId)
+    (hne : (some g == id) = false) :
+    ∀ (es : List FLoops.Entry) (q : List FLoops.RefId),
+      FLoops.relInner recs false hr id es q (some g) =
+        if es.any (fun e => e.rel == FLoops.DefVal.sym true && e.ref == some g) then FLoops.Step.ret true
+        else FLoops.Step.done := by
+  intro es
+  induction es with
+  | nil => intro q; rfl
+  | cons e rest ih =>
+    intro q
+    simp only [FLoops.relInner, hne, Bool.and_false, Bool.false_and, Bool.false_eq_true, if_false, List.any_cons,
+      Option.isSome_some, Bool.and_true]
+    split
+    · rename_i f hf
+      cases f with
+      | false => simp [hf, ih q]
+      | true =>
+        simp only [hf, if_true, beq_self_eq_true, Bool.true_and]
+        by_cases hm : e.ref = some g
+        · simp [hm]
+        · have h1 : (e.ref == some g) = false := by simpa using hm
+          simp only [h1, Bool.and_false, Bool.false_eq_true, if_false, Bool.false_or]
+          exact ih q
+    · rename_i hns
+      have hb : (e.rel == FLoops.DefVal.sym true) = false := by
+        cases h : e.rel with
+        | absent => rfl
+        | other => rfl
+        | sym f => exact absurd h (hns f)
+      simp [hb, ih q]
+
+/-- `has_relationship(subject, rel, term, Some(target), _)` for a relationship WITHOUT the `transitive` marker and a
+subject whose `id` is not the target -/
+theorem hasRelationship_direct (fuel lf : Nat) (x : NsX) (recs : List RecX) (rel : Name) (term : Option Name)
+    (g : Name) (s : RecX) (hid : (some g == s.id) = false) (rd : DefX) (hg : getX x.xd rel = some rd)
+    (htr : rd.hasMarker nTransitive = false) (inh : List Name) (hi : inheritance fuel x.ns rel = .ok inh) :
+    hasRelationship fuel (lf + 1) x recs rel term (some g) s =
+      .ok (inh.contains nRelationship &&
+        s.tags.any (fun t => defVal fuel x term t.key rel == FLoops.DefVal.sym true && t.ref == some g)) := by
+  unfold hasRelationship
+  rw [hg]
+  simp only [hi, htr]
+  unfold FLoops.hasRelationship
+  by_cases hc : inh.contains nRelationship = true
+  · simp only [hc, Bool.not_true, Bool.false_eq_true, if_false, Bool.true_and]
+    have hview : (viewRec fuel x term rel (rd.getSymbol nReciprocalOf) s).id = s.id := rfl
+    simp only [FLoops.relLoop, hview]
+    rw [relInner_direct _ _ s.id g hid]
+    have hany : (viewRec fuel x term rel (rd.getSymbol nReciprocalOf) s).entries.any
+          (fun e => e.rel == FLoops.DefVal.sym true && e.ref == some g)
+        = s.tags.any (fun t => defVal fuel x term t.key rel == FLoops.DefVal.sym true && t.ref == some g) := by
+      simp only [viewRec, List.any_map]
+      rfl
+    rw [hany]
+    cases s.tags.any (fun t => defVal fuel x term t.key rel == FLoops.DefVal.sym true && t.ref == some g) <;> rfl
+  · have hc' : inh.contains nRelationship = false := by simpa using hc
+    simp only [hc', Bool.not_false, if_true, Bool.false_and]
+
+end Hs.NsA
